@@ -254,4 +254,8 @@ def check(ctx):
         check_G1(ctx, facts, cg)
         check_G2(ctx, facts)
     check_G3(ctx, facts)
-    check_G4(ctx, facts)
+    # SEM: one request through the connection handler, interpreted against a registry that does / does not hold the handler and
+    # against both answers of the handler (server_abs); subsumes G4
+    import server_abs
+    if not server_abs.check_dispatch(ctx, facts, 'C13.SEM'):
+        check_G4(ctx, facts)
